@@ -18,6 +18,7 @@ from .core import Verdict
 from .c12 import Server
 
 MOD = "example.com/m"
+ALL_FILES_STAGES = ["template-missing-all-files", "template-404-all-files"]   # every file of package p shares one template that cannot be retrieved
 STAGES = ["template-missing", "template-404", "template-missing-schema-not-required", "template-404-schema-not-required", "schema-missing", "schema-invalid-iface", "schema-invalid-file", "template-parse", "template-exec", "format"]
 STATES = ["absent", "prev-long", "prev-short", "user", "user-marker", "dir"]
 
@@ -44,11 +45,13 @@ def gen_case(rng, i):
     inj = None
     if rng.random() < 0.7:
         inj = {"stage": rng.choice(STAGES), "file": rng.randint(1, n)}
+    if inj and n >= 2 and rng.random() < 0.12:
+        inj = {"stage": rng.choice(ALL_FILES_STAGES), "file": 1}
     share = n >= 2 and rng.random() < 0.3
     if share and inj and rng.random() < 0.6:
         # a violation on one of several mocks sharing a file, first / middle / last in source order
         inj = {"stage": rng.choice(["schema-invalid-iface", "schema-invalid-iface", "template-exec", "template-parse"]), "file": rng.choice([1, 1, n, rng.randint(1, n)])}
-    return {"kind": "write", "i": i, "n": n, "files": files, "share": share, "root_force": rng.choice([None, True, False, True]),
+    return {"kind": "write", "i": i, "n": n, "files": files, "share": share, "env_force": rng.choice([None, None, True, False]), "root_force": rng.choice([None, True, False, True]),
             "pkg_force": rng.choice([None, None, True, False]), "inj": inj, "formatter": rng.choice(["goimports", "gofmt", "noop"])}
 
 
@@ -74,7 +77,11 @@ def build(case, root, server, with_injection, all_force):
         ic = {"template": f["template"]}
         if not all_force and f["force"] is not None and not share:
             ic["force-file-write"] = f["force"]
-        if inj and inj["file"] == k:
+        if inj and inj["stage"] in ALL_FILES_STAGES:
+            ic["template"] = "file://tm/missing.templ" if inj["stage"].startswith("template-missing") else "http://127.0.0.1:%d/nope/%d/t.templ" % (server.http, case["i"])
+            ic["require-template-schema-exists"] = False
+            ic["formatter"] = "gofmt" if case["formatter"] == "goimports" else case["formatter"]   # a formatter that would accept an empty file
+        elif inj and inj["file"] == k:
             st = inj["stage"]
             if st == "template-missing":
                 ic["template"] = "file://tm/missing.templ"
@@ -174,7 +181,11 @@ def eval_case(ctx, case):
         if os.path.isfile(p):
             before_bytes[rel] = open(p, "rb").read()
     strace = core.strace_available()
-    r = core.run_mockery(ctx, root, [], strace=strace, timeout=600)
+    env = None
+    if case.get("env_force") is not None and case.get("root_force") is not None:
+        # the file states force-file-write at the top level: a MOCKERY_FORCE_FILE_WRITE variable (lower precedence) must not change anything
+        env = {"MOCKERY_FORCE_FILE_WRITE": "true" if case["env_force"] else "false"}
+    r = core.run_mockery(ctx, root, [], env_extra=env, strace=strace, timeout=600)
     if r.timed_out:
         return Verdict.inconclusive("watchdog")
     after = core.snapshot(root)
@@ -193,7 +204,7 @@ def eval_case(ctx, case):
     blocked = [rel for rel in outputs.values() if states[rel] != "absent" and not eff_force[rel]]
     dir_clash = [rel for rel in outputs.values() if states[rel] == "dir" and eff_force[rel]]
     must_fail = bool(blocked or dir_clash or inj)
-    tags = ["files=%d" % len(set(outputs.values())), "formatter=" + case["formatter"]] + (["shared-file-of-%d" % case["n"]] if case.get("share") else []) + (["inject=" + inj["stage"]] if inj else ["no-fault"]) + \
+    tags = ["files=%d" % len(set(outputs.values())), "formatter=" + case["formatter"]] + (["shared-file-of-%d" % case["n"]] if case.get("share") else []) + (["env-contradicts-file"] if case.get("env_force") is not None and case.get("root_force") is not None else []) + (["inject=" + inj["stage"]] if inj else ["no-fault"]) + \
            (["blocked-by-existing"] if blocked else []) + (["dir-at-output"] if dir_clash else []) + ([] if strace else ["no-strace"])
     obs = {"exit": r.exit, "states": states, "effective_force": eff_force, "injected": inj, "must_fail": must_fail,
            "syscall_events": len(r.events), "strace": strace}
@@ -245,7 +256,7 @@ def eval_case(ctx, case):
         now = open(p, "rb").read() if os.path.isfile(p) else None
         old = before_bytes.get(rel)
         new = ref[rel]
-        protected = (rel in blocked) or (rel == inj_rel)
+        protected = (rel in blocked) or (rel == inj_rel) or (inj is not None and inj["stage"] in ALL_FILES_STAGES and rel != outputs["q"])
         if protected and now != old:
             return Verdict.violated("output %s had to keep its previous %s (%s) but changed" % (
                 rel, "content" if old is not None else "absence", "force-file-write false" if rel in blocked else "its production fails at stage " + inj["stage"]),
@@ -285,6 +296,15 @@ def body(ctx, replay=None):
                     c["inj"] = {"stage": st, "file": 1 + (j % nfiles)}
                     c["root_force"] = True
                     cases.append(c)
+            # an unretrievable template shared by all 3-4 files of the package, under formatters that accept an empty file, over absent / previous / user content
+            for j, (stage, st0, fm) in enumerate((a, b, c) for a in ALL_FILES_STAGES for b in ("absent", "prev-long", "user") for c in ("noop", "gofmt")):
+                nn = 3 + j % 2
+                cases.append({"kind": "write", "i": 31000 + j, "n": nn, "inj": {"stage": stage, "file": 1}, "formatter": fm,
+                              "files": [{"state": st0, "force": None, "template": "testify"}] * nn, "root_force": True, "pkg_force": None})
+            # the environment says the opposite of the file's top-level force-file-write: the file wins
+            for j, (rf, st0) in enumerate((a, b) for a in (True, False) for b in ("prev-long", "user")):
+                cases.append({"kind": "write", "i": 32000 + j, "n": 2, "inj": None, "formatter": "gofmt", "env_force": not rf,
+                              "files": [{"state": st0, "force": None, "template": "testify"}, {"state": "absent", "force": None, "template": "matryer"}], "root_force": rf, "pkg_force": None})
             # a shared output file of 3 mocks: violation on the first, the middle and the last interface, over absent / user / previous content
             for j, (pos, st0, stage) in enumerate((a, b, c) for a in (1, 2, 3) for b in ("absent", "user", "prev-long") for c in ("schema-invalid-iface", "template-exec")):
                 cases.append({"kind": "write", "i": 30000 + j, "n": 3, "share": True, "inj": {"stage": stage, "file": pos}, "formatter": ["goimports", "gofmt", "noop"][j % 3],
